@@ -204,6 +204,15 @@ func (s *sqSubj[T]) check(o *Oracle) {
 	if len(o.Active) == 0 {
 		return // C18 write phases: no observer may run on the container (it would warm lazily built state)
 	}
+	if derive(o.cur.ID, 91, 2) == 1 && o.On("C05") { // (observer order varies, see listSubj.check)
+		v, ok := s.c.Peek()
+		if ok != (len(s.m) > 0) || (ok && !sameElem(s.d, v, s.m[0])) {
+			o.Fail("C05", "peek", "after %s (asked before Values()): Peek()=(%s,%v), model %s", o.cur, s.d.Str(v), ok, joinS(s.m, s.d.Str))
+		}
+		if got := s.c.Size(); got != len(s.m) {
+			o.Fail("C05", "size", "after %s (asked before Values()): Size()=%d, want %d", o.cur, got, len(s.m))
+		}
+	}
 	vals := s.c.Values()
 	if o.On("C05") || o.On("C16") {
 		tag := "C05"
